@@ -343,6 +343,50 @@ func runC20(r *mon.Run, replay string) {
 		}
 	}
 
+	// unknown tokens at every position, on phrases that WOULD be valid if the
+	// unknown token were read as word 0 ("abandon"): a lookup that silently
+	// yields index 0 for a missing word is exactly the plausible bug here
+	unknown := []string{"notaword", "abandonx", "Abandon", "ABANDON", "abando", "zoo1", "\u00e1bandon", "abandon\x00"}
+	for i := 0; i < r.Pick(400, 4000); i++ {
+		pos := i % 12
+		ws := make([]string, 12)
+		for j := range ws {
+			ws[j] = words[rng.IntN(2048)]
+		}
+		ws[pos] = words[0]
+		ok := false
+		if pos < 11 {
+			for w := 0; w < 2048 && !ok; w++ {
+				ws[11] = words[w]
+				_, ok = refDecode(index, ws)
+			}
+		} else {
+			for try := 0; try < 400 && !ok; try++ {
+				for j := 0; j < 11; j++ {
+					ws[j] = words[rng.IntN(2048)]
+				}
+				_, ok = refDecode(index, ws)
+			}
+		}
+		if !ok {
+			continue
+		}
+		for _, u := range unknown {
+			bad := append([]string{}, ws...)
+			bad[pos] = u
+			p := strings.Join(bad, " ")
+			r.Eval()
+			_, err, pan := decode(p)
+			if pan != nil {
+				r.Violation("malformed-panic", "phrase with an unknown word panics", c20Case{Kind: "unknown-word", Phrase: p}, fmt.Sprint(pan))
+			} else if err == nil {
+				r.Violation("unknown-word-accepted", fmt.Sprintf("a phrase whose word %d is not in the word list was accepted", pos+1), c20Case{Kind: "unknown-word", Phrase: p}, nil)
+			}
+			r.Count("unknown_word_probes", 1)
+			r.SetAdd("unknown_word_positions", fmt.Sprint(pos))
+		}
+	}
+
 	// keys: determinism, reference derivation, index separation
 	idxs := []uint64{0, 1, 2, 255, 256, 1<<32 - 1, 1 << 32, 1<<63 - 1, 1 << 63, 1<<64 - 1}
 	for i := 0; i < r.Pick(2000, 40000); i++ {
@@ -384,4 +428,5 @@ func runC20(r *mon.Run, replay string) {
 	r.Floor("phrases_accepted", 1000)
 	r.Floor("phrases_rejected", 1000)
 	r.Floor("keys_derived", 1000)
+	r.Floor("unknown_word_probes", 1000)
 }
